@@ -36,6 +36,11 @@ CLAIMED = {
             "Histories of up to 40 operations (build-and-freeze modules loading from live frozen modules, clone, owned handles incl. mapped ones, add_to_heap into new modules, import_public_symbols, Globals from frozen values, modules on such Globals, from_globals, drop of any entity), each placed on one of 1-4 real OS threads and run to completion; every arena is poisoned at drop and quarantined (2/3) or really re-used through the per-thread chunk cache (1/3). After every operation every value reachable from every live entity is re-encoded and exported functions re-called; results must equal those recorded at creation.",
             "Only safe documented API is used. A forgotten heap edge is detected when the referenced heap is dropped while a dependant is still observed, which the drop-order search makes likely, not certain.",
             "DESIGN.md §6 C13"),
+    "C11": ("exploration",
+            "deterministic simulation of operation histories against a Vec model, with panics injected into user callbacks (Hash/Eq/Ord/closures) at the n-th invocation inside an operation; complete enumeration of short histories around the index threshold",
+            "Operation histories over SmallMap (plain and pre-hashed API), SmallSet, OrderedMap/Set, SortedMap/Set/Vec, UnorderedMap/Set and Vec2 are executed against a Vec<(K,V)> model; keys carry simulator-chosen adversarial hashes so collisions are the norm; a panic is injected into Hash/Eq/Ord/retain/sort_by/or_insert_with/and_modify callbacks inside about one operation in nine and the container must stay duplicate-free and internally consistent (narrow relaxation, then re-synchronised); after every step every lookup by key, index and position for every key of the universe is compared. All histories up to length 4 (quick) / 5 (thorough) over an 18-operation alphabet on base maps of 15-18 entries are enumerated completely; random histories up to 220 operations cross the 16-entry threshold repeatedly; tracked values detect double drops and leaks.",
+            "Exhaustive only inside the stated short-history sub-space; the rest is seeded sampling. The relaxed post-panic model accepts loss of entries (the library does not promise more).",
+            "DESIGN.md §6 C11"),
 }
 
 NOT_APPLICABLE = {
@@ -52,7 +57,6 @@ NOT_APPLICABLE = {
 
 # Properties planned (DESIGN.md) but whose check is not built yet: listed as not claimed *yet*.
 PENDING = {
-    "C11": "claimed in DESIGN.md but its check is not built yet in this commit; not claimed until it is",
     "C14": "claimed in DESIGN.md but its check is not built yet in this commit; not claimed until it is",
     "C18": "claimed in DESIGN.md but its check is not built yet in this commit; not claimed until it is",
     "C19": "claimed in DESIGN.md but its check is not built yet in this commit; not claimed until it is",
